@@ -253,6 +253,9 @@ class Inliner:
             return None
         if any(isinstance(d, ast.Name) and d.id in ("property", "abstractmethod") for d in t.node.decorator_list):
             return None
+        if any((attr_chain(d.func if isinstance(d, ast.Call) else d) or "?").split(".")[-1] not in ("staticmethod", "classmethod")
+               for d in t.node.decorator_list):
+            return None          # a decorator changes what a call means (lru_cache, contextmanager ...): the call stays a call
         if self._foreign(fi, t) is None:
             return None
         return t
